@@ -429,6 +429,36 @@ Fixpoint resolve_rules (l : list rrule) (acc : list frule) : option (list frule)
 
 Definition resolve (rules : list rrule) : option (list frule) := resolve_rules rules [].
 
+(* ---- the readable specification of resolveImports.
+   Every rule contributes, in document order, a list of rules that are handed to add() one after the other:
+     @charset                    nothing
+     comment / style / @namespace   itself
+     an @import that is not loaded  itself (KEPT)
+     a loaded @import               the START comment, then
+        media `all`                 the rules of its flattened sheet
+        media-restricted            one @media rule holding the flattened sheet when that consists of rules which
+                                    may stand inside @media (wrap_allowed), otherwise the @import itself (kept)        *)
+Definition start_comment (h : str) : frule := FComment (s " START @import """ ++ h ++ s """ ").
+Definition place (l : list frule) (tg : list frule) : list frule := fold_left (fun t x => add x t) l tg.
+
+Fixpoint contrib (r : rrule) : list frule :=
+  match r with
+  | RCharset _ => []
+  | RNamespace u => [FNamespace u]
+  | RStyle a b => [FStyle a b]
+  | RComment t => [FComment t]
+  | RImport h media found _ rules =>
+      if negb found then [FImport h media]
+      else
+        let flat := place (flat_map contrib rules) [] in
+        start_comment h ::
+          (if is_all media then flat
+           else if forallb wrappable flat then [FMedia media flat]
+           else [FImport h media])
+  end.
+
+Definition flatten (rules : list rrule) : list frule := place (flat_map contrib rules) [].
+
 (* the URLs re-requested by add() for unloaded imports kept at the top level of the result, in order *)
 Definition kept_unloaded (rules : list rrule) : list str :=
   flat_map (fun r => match r with RImport h _ false _ _ => [h] | _ => [] end) rules.
